@@ -11,6 +11,7 @@ package c14
 import (
 	"encoding/base64"
 	"encoding/json"
+	"fmt"
 	"io/ioutil"
 	"os"
 	"path/filepath"
@@ -32,6 +33,7 @@ func runReplayFile(c *core.Ctx) {
 			Recs   []int               `json:"abstract_records"`
 			Hist   []histAct           `json:"writer_history"`
 			Base   uint64              `json:"height_base"`
+			Bounds []int               `json:"file_ends_in_cells"`
 			D      dcase               `json:"dcase"`
 			Expect *obsT               `json:"expect"`
 			Files  []map[string]string `json:"files"`
@@ -68,10 +70,11 @@ func runReplayFile(c *core.Ctx) {
 			gwMode = bindHook
 		}
 		groupWriteBoundaryProbe(c, base)
+		flushPending(c)
 		return
 	case "concurrent":
 		// (a schedule of the Go scheduler: re-running it shows the window again with high probability only)
-		concurrentRotationProbe(c, base, 12, 100)
+		concurrentRotationProbe(c, base, 12, 120)
 		return
 	case "case":
 	default:
@@ -82,6 +85,13 @@ func runReplayFile(c *core.Ctx) {
 	if rec.Expect == nil || len(rec.Files) == 0 {
 		c.Infra("replay file %s: no files / expectation recorded", c.Replay)
 		return
+	}
+	if hasMidRotation(rec.Hist) && rec.D.Kind == "none" {
+		// the recorded files are the WRITER's doing (the group rotated between two Group.Write calls
+		// of a record): write the history again with the code as it is now
+		if _, done := replayWriter(c, base, rec.Recs, rec.Hist, rec.Bounds, rec.Expect); done {
+			return
+		}
 	}
 	rl := &realLog{Recs: rec.Recs, Hist: rec.Hist, Inst: &instance{Base: rec.Base}}
 	for _, f := range rec.Files {
@@ -130,4 +140,73 @@ func runReplayFile(c *core.Ctx) {
 	} else if v.Drift != "" {
 		c.Drift("%s", v.Drift)
 	}
+}
+
+// replayWriter executes a recorded writer history (one with a rotation between two Group.Write
+// calls of a record) on the code as it is now and reads the undamaged log back. done = a verdict
+// was reached (violation, or: the code no longer writes such a log).
+func replayWriter(c *core.Ctx, base string, recs []int, hist []histAct, bounds []int, exp *obsT) (rewritten bool, done bool) {
+	variant, err := probeVariant(base)
+	if err != nil {
+		return false, false
+	}
+	cuts, _, _, err := probeEncodeCuts()
+	if err != nil {
+		return false, false
+	}
+	variant.Cuts = cuts
+	gwMode = bindTap
+	if present, _, err := probeGroupWriteHook(base); err == nil && present {
+		gwMode = bindHook
+	}
+	l := &layout{Key: layoutKey(recs, bounds), Recs: recs, Bounds: bounds}
+	var rl *realLog
+	for try := 0; try < 6; try++ {
+		in := chooseInstance(l, hist, 0, try*100, c.Seed)
+		rl, err = realise(filepath.Join(base, "rewrite"), recs, hist, in, variant)
+		if err == nil && !sameInts(rl.Bounds, bounds) {
+			err = fmt.Errorf("file layout %v (cells), recorded %v", rl.Bounds, bounds)
+		}
+		if err == nil {
+			break
+		}
+	}
+	o := c.Out()
+	o.Traces = 1
+	if err != nil {
+		// e.g. "no call ends in cell 6": the encoder hands the record to the group in one call now
+		c.SetExtra("writer_history", fmt.Sprintf("not realisable on this tree: %v (Encode ends a Group.Write call after cells {%s})", err, cuts))
+		fmt.Printf("replay: the recorded writer history is not realisable on this tree: %v\n", err)
+		return false, true
+	}
+	rd, err := newReader(filepath.Join(base, "read"), rl)
+	if err != nil {
+		c.Infra("reader: %v", err)
+		return true, true
+	}
+	defer rd.close()
+	heights := make([]uint64, len(recs)+1)
+	for h := range heights {
+		heights[h] = rl.Inst.height(h)
+	}
+	d := dcase{Kind: "none"}
+	cls := rl.classify(d)
+	ro, err := rd.observe(d, rl.Stream, heights, false)
+	if err != nil {
+		c.Infra("observe: %v", err)
+		return true, true
+	}
+	o.Evaluations = len(ro.Strict) + len(ro.Search)
+	v := rl.compare(d, cls, exp, ro, 0)
+	smp := record(rl, d, cls, exp, ro)
+	delete(smp, "files")
+	delete(smp, "expect")
+	smp["binding"] = bindingName()
+	c.Sample(smp)
+	if v.Key != "" {
+		c.Violate(v.Key, v.Desc, record(rl, d, cls, exp, ro))
+	} else if v.Drift != "" {
+		c.Drift("%s", v.Drift)
+	}
+	return true, true
 }
